@@ -52,4 +52,14 @@ def count_configurations_rec(feature: Feature) -> int:
         elif relation.is_or():
             children_counts = [count_configurations_rec(f) + 1 for f in relation.children]
             counts.append(math.prod(children_counts) - 1)
+        else:
+            # mutex and group cardinality [a..b]: choose between a and b children
+            # (sum of the elementary symmetric polynomials of the children's counts).
+            children_counts = [count_configurations_rec(f) for f in relation.children]
+            card_max = len(children_counts) if relation.card_max == -1 else relation.card_max
+            coefficients = [1]
+            for count in children_counts:
+                coefficients = [c + count * p for c, p
+                                in zip(coefficients + [0], [0] + coefficients)]
+            counts.append(sum(coefficients[relation.card_min:card_max + 1]))
     return math.prod(counts)
